@@ -206,3 +206,38 @@ def add_component(match, extra):
     if match.startswith("last() ->"):
         return extra + " " + match
     return match + " " + extra
+
+
+# ---- comparisons of present cells never raise (docs/functions/above.md: number, else string) --------------------------------
+CMP_CELLS = ["0", "1", "2", "3", "10", "12", "-1", "1.0", "01", "3.0", "1,200", "$4", "2;5", "€9", "1,0", "fish", "Fish", "x", "12 ", " 7"]
+
+
+def gen_cmp_case(seed, i):
+    r = rng(seed, "cmp-family", i)
+    recs = [["a", "b", "n", "c"]]
+    for _ in range(r.randint(2, 7)):
+        recs.append([r.choice(["x", "y", "zed"]), r.choice(CMP_CELLS), r.choice(CMP_CELLS), r.choice(["p", "q"])])
+    f = r.choice(["above", "below", "gt", "lt", "gte", "lte", "after", "before"])
+    left = r.choice(["#n", "#b", "#2"])
+    right = r.choice(["#b", "#n", str(r.choice([0, 1, 2, 3, 10, 100, 2000])), '"' + r.choice(["fish", "3", "x"]) + '"'])
+    comp = f"{f}({left}, {right})"
+    if r.random() < 0.3:
+        comp = f"not({comp})"
+    if r.random() < 0.3:
+        comp = comp + ' push("seen", line_number())'
+    return {"recs": recs, "scan": "1*", "match": comp, "and": r.random() < 0.8, "profile": "cmp-family"}
+
+
+def case_cmp(case):
+    """the comparison family on cells that are present: no error is raised, and the lines are those the documented comparison
+    (numbers as numbers, anything else as text) selects"""
+    import real_run
+
+    res = case_spec(case)
+    if res.get("spec_note") == "real run has errors":
+        path = real_run.write_file("in.csv", case["recs"])
+        mode = "" if case["and"] else "~ logic-mode: OR ~ "
+        out, _ = real_run.run_single(f"{mode}${path}[{case['scan']}][{case['match']}]", "collect", policy=["collect"])
+        res["spec"] = [{"what": "a comparison of two present cells raised an error (the documented fallback is a comparison as text)",
+                        "errors": out.get("errors"), "raised": out.get("raised")}]
+    return res
